@@ -10,11 +10,11 @@ import (
 	apierrors "k8s.io/apimachinery/pkg/api/errors"
 	metav1 "k8s.io/apimachinery/pkg/apis/meta/v1"
 	"k8s.io/apimachinery/pkg/labels"
-	"k8s.io/apimachinery/pkg/runtime"
-	clienttesting "k8s.io/client-go/testing"
 
 	proxyv1alpha1 "github.com/kubewharf/kubegateway/pkg/apis/proxy/v1alpha1"
+	gatewayclientset "github.com/kubewharf/kubegateway/pkg/client/kubernetes"
 	gatewayfake "github.com/kubewharf/kubegateway/pkg/client/kubernetes/fake"
+	typedv1alpha1 "github.com/kubewharf/kubegateway/pkg/client/kubernetes/typed/proxy/v1alpha1"
 	"github.com/kubewharf/kubegateway/pkg/ratelimiter/limiter"
 	"github.com/kubewharf/kubegateway/pkg/ratelimiter/limiter/elector"
 	_interface "github.com/kubewharf/kubegateway/pkg/ratelimiter/store/interface"
@@ -24,26 +24,92 @@ import (
 	"verifharness/rig"
 )
 
-// faultyAPI is a fake gateway clientset whose writes of RateLimitConditions can be made to fail and are counted.
-// (The reactors never call the client: Fake.Invokes holds its lock while reacting.)
+// faultyAPI is the API the k8s store talks to: the generated fake gateway clientset behind a thin wrapper of its
+// RateLimitConditions() client that counts writes, fails them on command, and can make a List hang until the
+// harness releases it with or without an error. (A wrapper, not reactors: testing.Fake holds its lock while a
+// reactor runs, so a hanging reactor would hang every other call.)
 type faultyAPI struct {
 	gc     *gatewayfake.Clientset
 	fail   int32 // 1: every update/create of a ratelimitcondition answers 500
 	writes int64 // update/create calls seen (failed ones included)
+
+	mu        sync.Mutex
+	blockNext bool              // the next List hangs
+	entered   chan *pendingList // a List started to hang
 }
 
+type pendingList struct{ release chan error }
+
 func newFaultyAPI() *faultyAPI {
-	f := &faultyAPI{gc: gatewayfake.NewSimpleClientset()}
-	react := func(action clienttesting.Action) (bool, runtime.Object, error) {
-		atomic.AddInt64(&f.writes, 1)
-		if atomic.LoadInt32(&f.fail) == 1 {
-			return true, nil, apierrors.NewInternalError(fmt.Errorf("etcdserver: request timed out"))
-		}
-		return false, nil, nil
+	return &faultyAPI{gc: gatewayfake.NewSimpleClientset(), entered: make(chan *pendingList, 16)}
+}
+
+func (f *faultyAPI) client() gatewayclientset.Interface { return &wrapClient{Interface: f.gc, f: f} }
+
+type wrapClient struct {
+	gatewayclientset.Interface
+	f *faultyAPI
+}
+
+func (c *wrapClient) ProxyV1alpha1() typedv1alpha1.ProxyV1alpha1Interface {
+	return &wrapProxy{ProxyV1alpha1Interface: c.Interface.ProxyV1alpha1(), f: c.f}
+}
+
+type wrapProxy struct {
+	typedv1alpha1.ProxyV1alpha1Interface
+	f *faultyAPI
+}
+
+func (p *wrapProxy) RateLimitConditions() typedv1alpha1.RateLimitConditionInterface {
+	return &wrapConds{RateLimitConditionInterface: p.ProxyV1alpha1Interface.RateLimitConditions(), f: p.f}
+}
+
+type wrapConds struct {
+	typedv1alpha1.RateLimitConditionInterface
+	f *faultyAPI
+}
+
+func (w *wrapConds) write() error {
+	atomic.AddInt64(&w.f.writes, 1)
+	if atomic.LoadInt32(&w.f.fail) == 1 {
+		return apierrors.NewInternalError(fmt.Errorf("etcdserver: request timed out"))
 	}
-	f.gc.PrependReactor("update", "ratelimitconditions", react)
-	f.gc.PrependReactor("create", "ratelimitconditions", react)
-	return f
+	return nil
+}
+
+func (w *wrapConds) Update(ctx context.Context, o *proxyv1alpha1.RateLimitCondition, opts metav1.UpdateOptions) (*proxyv1alpha1.RateLimitCondition, error) {
+	if err := w.write(); err != nil {
+		return &proxyv1alpha1.RateLimitCondition{}, err
+	}
+	return w.RateLimitConditionInterface.Update(ctx, o, opts)
+}
+
+func (w *wrapConds) Create(ctx context.Context, o *proxyv1alpha1.RateLimitCondition, opts metav1.CreateOptions) (*proxyv1alpha1.RateLimitCondition, error) {
+	if err := w.write(); err != nil {
+		return &proxyv1alpha1.RateLimitCondition{}, err
+	}
+	return w.RateLimitConditionInterface.Create(ctx, o, opts)
+}
+
+func (w *wrapConds) List(ctx context.Context, opts metav1.ListOptions) (*proxyv1alpha1.RateLimitConditionList, error) {
+	w.f.mu.Lock()
+	hang := w.f.blockNext
+	w.f.blockNext = false
+	w.f.mu.Unlock()
+	if hang {
+		pl := &pendingList{release: make(chan error, 1)}
+		w.f.entered <- pl
+		if err := <-pl.release; err != nil {
+			return &proxyv1alpha1.RateLimitConditionList{}, err
+		}
+	}
+	return w.RateLimitConditionInterface.List(ctx, opts)
+}
+
+func (f *faultyAPI) hangNextList(b bool) {
+	f.mu.Lock()
+	f.blockNext = b
+	f.mu.Unlock()
 }
 
 func (f *faultyAPI) setFail(b bool) {
@@ -62,7 +128,7 @@ func leadAndFill(api *faultyAPI, n int, period time.Duration, listed bool, conds
 	if listed {
 		lister = []string{stopUpstream}
 	}
-	e, err := newEnvWith("http://me.verif:1", n, "k8s", lister, api.gc, period)
+	e, err := newEnvWith("http://me.verif:1", n, "k8s", lister, api.client(), period)
 	if err != nil {
 		return nil, 0, nil, 0, err
 	}
